@@ -154,6 +154,11 @@ let handle (fields : string list) : string =
         st := st'; show_res hex_of_bytes r
       | _ -> failwith "bad swrite op") (split ' ' ops) in
     String.concat ";" outs
+  | ["tsmono"; ops] ->
+    let ts = List.filter_map (fun op -> match split '@' op with
+                                | [_; now] -> if now = "0" then None else Some (n_of_string now)
+                                | _ -> None) (split ' ' ops) in
+    if nondec ts then "mono" else "decreasing"
   | op :: _ -> failwith ("unknown op " ^ op)
   | [] -> ""
 
